@@ -306,6 +306,8 @@ package core
 //@   modifies ghost(w).hdr[all]
 //@   ensures stats != nil && stats.RoutingDecision != nil ==> len(ghost(w).hdr["X-Olla-Routing-Strategy"]) == 1 && ghost(w).hdr["X-Olla-Routing-Strategy"][0] == stats.RoutingDecision.Strategy && len(ghost(w).hdr["X-Olla-Routing-Decision"]) == 1 && ghost(w).hdr["X-Olla-Routing-Decision"][0] == stats.RoutingDecision.Action
 //@   ensures stats != nil && stats.RoutingDecision != nil && stats.RoutingDecision.Reason != "" ==> len(ghost(w).hdr["X-Olla-Routing-Reason"]) == 1 && ghost(w).hdr["X-Olla-Routing-Reason"][0] == stats.RoutingDecision.Reason
+//@   ensures endpoint != nil ==> len(ghost(w).hdr["X-Olla-Endpoint"]) == 1 && ghost(w).hdr["X-Olla-Endpoint"][0] == endpoint.Name && len(ghost(w).hdr["X-Olla-Backend-Type"]) == 1 && ghost(w).hdr["X-Olla-Backend-Type"][0] == endpoint.Type
+//@   ensures endpoint != nil && stats != nil && stats.Model != "" ==> len(ghost(w).hdr["X-Olla-Model"]) == 1 && ghost(w).hdr["X-Olla-Model"][0] == stats.Model
 
 //@ ghost var served int
 //@ extern (net/http.Handler).ServeHTTP(w, r)
